@@ -38,7 +38,7 @@ Proof. unfold backoff. lia. Qed.
 
 Definition base_ok (r : req) : Prop :=
   r_repl r = t_busy (r_pre r) /\ r_id r = t_id (r_pre r) /\ t_en (r_pre r) = true /\
-  (t_busy (r_pre r) = true -> r_ev r <> EvNone /\ r_ev r <> t_ev (r_pre r)).
+  (t_busy (r_pre r) = true -> r_ev r <> t_ev (r_pre r) /\ (t_ev (r_pre r) <> EvScrape -> r_ev r <> EvNone)).
 
 Definition retry_wait (t : tracker) : Z := if min_min <? t_mi t then t_mi t else backoff (t_fc t).
 
@@ -79,7 +79,7 @@ Definition emits (Q : req -> Prop) (s s' : state) : Prop :=
 
 (* predicates on trackers that do not look at the requesting flag / latest event *)
 Definition busy_closed (P : tracker -> Prop) : Prop :=
-  forall x b e, P x -> P (mkT (t_id x) (t_group x) (t_en x) b e (t_sc x) (t_fc x) (t_stl x) (t_ftl x) (t_ni x) (t_mi x)).
+  forall x b e sct, P x -> P (mkT (t_id x) (t_group x) (t_en x) b e (t_sc x) (t_fc x) (t_stl x) (t_ftl x) (t_ni x) (t_mi x) (t_scr x) sct).
 
 Definition keeps (s s' : state) : Prop :=
   now s' = now s /\ s_up s' = s_up s /\ s_comp s' = s_comp s /\ s_left s' = s_left s /\
@@ -169,10 +169,12 @@ Lemma send_event_E sr t ev s (C : tracker -> list tracker -> Prop) :
 Proof.
   intros HC. unfold send_event.
   destruct (is_usable t) eqn:Hu; simpl; [| apply E_refl].
-  destruct (t_busy t && (event_eqb (t_ev t) ev || event_eqb ev EvNone)) eqn:Hg; [apply E_refl |].
-  assert (Hbusy : t_busy t = true -> ev <> EvNone /\ ev <> t_ev t).
+  destruct (t_busy t && (event_eqb (t_ev t) ev || (negb (event_eqb (t_ev t) EvScrape) && event_eqb ev EvNone))) eqn:Hg; [apply E_refl |].
+  assert (Hbusy : t_busy t = true -> ev <> t_ev t /\ (t_ev t <> EvScrape -> ev <> EvNone)).
   { intros Hb. rewrite Hb in Hg. simpl in Hg. apply orb_false_elim in Hg. destruct Hg as [H1 H2].
-    apply event_eqb_false in H1. apply event_eqb_false in H2. split; congruence. }
+    apply event_eqb_false in H1. split; [congruence |]. intros Hs.
+    destruct (event_eqb (t_ev t) EvScrape) eqn:E; [apply event_eqb_true in E; contradiction |].
+    simpl in H2. apply event_eqb_false in H2. exact H2. }
   split.
   - eexists [_]. split; [reflexivity|]. constructor; [| constructor].
     unfold sent, base_ok, figures_ok; simpl. tauto.
@@ -210,7 +212,7 @@ Qed.
 Lemma ntp_timer_ok nows t : next_timeout_promiscuous nows t = 0 -> timer_ok nows t.
 Proof.
   pose proof params_facts as (p1&p2&p3&p4&p5).
-  unfold next_timeout_promiscuous. destruct (t_busy t || negb (is_usable t)).
+  unfold next_timeout_promiscuous. destruct (busy_ann t || negb (is_usable t)).
   - unfold uint32_max. discriminate.
   - unfold timer_ok, failed_time_next, activity_time_last, retry_wait. intros H. split.
     + intros Hf. apply Z.eqb_neq in Hf. rewrite Hf in H. simpl in H.
@@ -233,6 +235,12 @@ Proof.
       * eapply IH; eauto.
 Qed.
 
+Lemma pick_hinted_zero hint nows seg h : pick_hinted hint nows seg = Some h -> next_timeout_promiscuous nows h = 0.
+Proof.
+  unfold pick_hinted. destruct hint as [| a r]; [discriminate |]. intros H. apply find_some in H.
+  destruct H as [_ H]. apply andb_prop in H. destruct H as [H _]. apply Z.eqb_eq in H. exact H.
+Qed.
+
 (* ------------------------------------------------------------------ do_timeout *)
 
 Definition timer_C (F : flags) (nows : Z) (t : tracker) (l : list tracker) : Prop :=
@@ -249,12 +257,16 @@ Proof.
   induction fuel as [| fuel IH]; intros rest next s F T up comp lft HF HT Hu Hc Hl; simpl.
   - apply E_refl.
   - destruct rest as [| itr rest']; simpl; [apply E_refl |].
-    destruct (has_active_in_group (t_group itr) (trs s)); [apply IH; assumption |].
+    destruct (has_active_ann_in_group (t_group itr) (trs s)); [apply IH; assumption |].
     assert (Hn : now_s s = T / usec) by (unfold now_s; rewrite HT; reflexivity).
     destruct (negb (is_usable itr) || negb (t_fc itr =? 0)).
-    + destruct (find_preferred (now_s s) _ None uint32_max next) as [pref next'] eqn:Hfp.
-      destruct pref as [p |]; [| apply IH; assumption].
-      apply find_preferred_zero in Hfp. destruct Hfp as [Hfp | Hfp]; [discriminate |].
+    + destruct (find_preferred (now_s s) _ None uint32_max next) as [pref0 next'] eqn:Hfp0.
+      match goal with |- context [match ?pp with Some _ => _ | None => _ end] => destruct pp as [p |] eqn:Hpp end; [| apply IH; assumption].
+      assert (Hfp : next_timeout_promiscuous (now_s s) p = 0).
+      { destruct pref0 as [q |]; [| discriminate].
+        destruct (pick_hinted (hint s) (now_s s) _) as [h |] eqn:Hpk.
+        - inversion Hpp; subst h. eapply pick_hinted_zero; eauto.
+        - inversion Hpp; subst q. apply find_preferred_zero in Hfp0. destruct Hfp0 as [E0 | E0]; [discriminate | exact E0]. }
       rewrite Hn in Hfp. apply ntp_timer_ok in Hfp.
       pose proof (send_event_E SrcTimer p ev s (fun t _ => timer_ok (T / usec) t) Hfp) as H1.
       rewrite HF, HT, Hu, Hc, Hl in H1.
